@@ -200,6 +200,9 @@ class VMap(V):
     """mutable dict with symbolic keys: (ref,'dom') Array(K->Bool), (ref,'val') Array(K->V)."""
     kind = "map"
 
+    default = False
+    ordered = False
+
     def __init__(self, ref: int, key, val):
         self.ref = ref
         self.key = key
